@@ -19,6 +19,31 @@ struct Server {
     out: ws::Sender,
     dbs: Arc<Databases>,
     client: Client,
+    released: bool,
+}
+
+impl Server {
+    /// The end of the session: its subscriptions go away and its database stops counting it. Runs once, whichever way the
+    /// connection ends (a close frame reaches on_close; a connection the library tears down after a protocol error does not)
+    fn release(&mut self) {
+        if self.released {
+            return;
+        }
+        self.released = true;
+        match self.client.sender.try_send(TO_CLOSE.to_string()) {
+            //To close the read thread
+            Ok(_) => {}
+            Err(e) => log::warn!("release::Error {}", e),
+        }
+        process_request("unwatch-all", &self.dbs, &mut self.client);
+        self.client.left(&self.dbs);
+    }
+}
+
+impl Drop for Server {
+    fn drop(&mut self) {
+        self.release();
+    }
 }
 
 impl Handler for Server {
@@ -120,13 +145,7 @@ impl Handler for Server {
 
     fn on_close(&mut self, code: CloseCode, reason: &str) {
         log::debug!("WebSocket closing for ({:?}) {}", code, reason);
-        match self.client.sender.try_send(TO_CLOSE.to_string()) {
-            //To close the read thread
-            Ok(_) => {}
-            Err(e) => log::warn!("on_close::Error {}", e),
-        }
-        process_request("unwatch-all", &self.dbs, &mut self.client);
-        self.client.left(&self.dbs);
+        self.release();
     }
 }
 
@@ -144,6 +163,7 @@ pub fn start_web_socket_client(dbs: Arc<Databases>, ws_address: Arc<String>) {
                 out,
                 dbs: dbs.clone(),
                 client: Client::new_empty(sender.clone()),
+                released: false,
             })
             .unwrap()
             .listen(ws_address)
